@@ -4,13 +4,14 @@ model, extraction and fixtures with C05 through rp_common)."""
 import json, os
 import common, rp_common
 
-TRANSLATORS = ['t_report', 't_step', 't_interp']
-TRUSTED = ['modelled, not verified: int64_t arithmetic without overflow (C18_total_fits: fewer than 2^22 rows within +-2^40), '
+TRANSLATORS = ['t_report', 't_step', 't_interp', 't_shell']
+TRUSTED = ['modelled, not verified: int64_t arithmetic is written with unbounded integers; C18_no_overflow / C18_no_overflow_wall prove that every partial sum (C and shell) and the regress difference stay strictly inside int64_t for fewer than 2^22 rows with durations within +-2^40 and times below 2^62, '
            'the conversion size_t -> double and the division by 2^10 / 2^20 (exact below 2^53), glibc printf("%.01f") printing the correctly '
            'rounded decimal of the exact binary value with ties to even in round-to-nearest mode, "%02d" of an int, stat(2) st_size, '
            'readdir of <builddir>/rel and of robsddir, qsort on the Size: lines (total order on distinct lines), fnmatch("*.diff.[[:digit:]]*") in '
            'the C locale; bash standing in for ksh when running duration_total / regress_duration_total, with the rebuilt robsd-step '
-           'behind step_eval (C01 models that helper); shell arithmetic is 64 bit like the C code',
+           'behind step_eval (C01 models that helper); shell arithmetic is 64 bit like the C code; the guards of duration_total / regress_duration_total are read from '
+           'util.sh / util-regress.sh by harness/t_shell.py (Gen_Shell.v) and the hand-written shell model is proved equal to the one assembled from them (C18_shell_translated)',
            'environment assumed: as for C05 (lock file names the directory given on the command line); the Size: oracle is not applied when '
            'the tags file lacks a final newline (the first Size: line is then glued to the Tags: line and the harness cannot cut it out; the '
            'byte-exact correspondence still covers those cases); durations outside 0..2^40 or deltas beyond +-2^40 (in-flight -1 rows) are '
